@@ -199,6 +199,22 @@ def run(ctx: Ctx, tier: str) -> Result:
                     res.ok("C15.ONCE", {"%s attached once per action" % cls_.name: f_.loc(c)})
     res.floor("deferred results attached", n_att, 2)
 
+    # completing a span result closes every span it holds
+    sac = p.classes.get("deep.processor.context.span_action.SpanActionCallback")
+    need(sac is not None, "SpanActionCallback not found")
+    sproc = sac.lookup("process")
+    closes = [c for c in t.calls_in(sproc) if isinstance(c.func, ast.Attribute) and c.func.attr == "close"]
+    okcl = False
+    if len(closes) == 1:
+        lps_ = [l for l in paths.enclosing_loops(p, closes[0], sproc) if isinstance(l, ast.For)]
+        okcl = len(lps_) == 1 and norm(lps_[0].iter) in ("self.__spans", "list(self.__spans)", "reversed(self.__spans)") and norm(closes[0].func.value) == norm(lps_[0].target) \
+            and not paths.enclosing_conditions(p, closes[0], sproc) and not [n for n in ast.walk(lps_[0]) if isinstance(n, (ast.Break, ast.Return))]
+        st_ = t.field_stores(sac, "__spans")
+        okcl = okcl and bool(st_) and all(sf.name == "__init__" and isinstance(v, ast.Name) and v.id == sf.params[1] for sf, v, _ in st_)
+    if okcl:
+        res.ok("C15.ONCE", {"every span of the result closed once": sproc.loc(closes[0])})
+    else:
+        res.fail(Finding("C15.ONCE", sproc.qname, closes[0] if closes else "<for span in spans: span.close()>", sproc.loc(), "completing a span result does not close each of its spans exactly once"))
     # only real callbacks are registered for later: a result without deferred work (None) is not queued
     tcx = p.func("deep.processor.context.trigger_context.TriggerContext.__exit__")
     apps_ = [c for c in t.calls_in(tcx) if isinstance(c.func, ast.Attribute) and c.func.attr == "append" and norm(c.func.value).endswith("callbacks")]
